@@ -19,7 +19,7 @@ except Exception:  # pragma: no cover
 
 META = {
     "technique": "Lean 4 state-machine proof over the model of Geometry_Optimization_SD.run (evaluation count, truthful return values, message rule, coordinates one update past the last evaluation, descent lemma under L-smoothness, padding/path independence) + recorded-trace correspondence + descent probes on distorted geometries",
-    "level_text": "Theorems: the number of evaluations is min(first i with max|F_i| <= tol, max_evl); the returned force error and energy change are those of the last evaluated geometry (with the stated first-evaluation edge); convergence exactly at the evaluation cap is reported as not converged (forced edge, stated); stored coordinates are one update past the last evaluated geometry; E(x + aF) <= E(x) - a(1 - La/2)|F|^2 under L-smoothness, hence descent for 0 < a <= 1/L; atoms with zero force never move; the update of molecule k uses only its own force (the run LENGTH is batch-global). Tied to the code by recording (x_i, F_i, E_i) of real runs, replaying the force maxima and energies through the compiled model (evaluation count, message, returned pair) and checking the coordinate update to <= 2 ulp; descent, truthful stop, padding and batch-independence are probed on distorted geometries over step factors 1e-4..2e-2, tolerances and caps.",
+    "level_text": "Theorems: the number of evaluations is min(first i with max|F_i| <= tol, max_evl); the returned force error and energy change are those of the last evaluated geometry (with the stated first-evaluation edge); convergence exactly at the evaluation cap is reported as not converged (forced edge, stated); stored coordinates are one update past the last evaluated geometry; E(x + aF) <= E(x) - a(1 - La/2)|F|^2 under L-smoothness, hence descent for 0 < a <= 1/L; atoms with zero force never move; the update of molecule k uses only its own force (the run LENGTH is batch-global). Tied to the code by recording (x_i, F_i, E_i) of real runs, replaying the force maxima and energies through the compiled model (evaluation count, message, returned pair) and checking the coordinate update to <= 2 ulp; descent, truthful stop, padding and batch-independence are probed on distorted geometries over step factors 1e-4..2e-2, tolerances and caps. Translator tie (regenerated every run): the order evaluate / read force / move / return of onestep, the coordinate update, the loop range, force_err = max|F| over the batch, energy_err, the continue test with what each branch does, the not-converged test and the returned pair are extracted from the source and identified with the loop model (SDTie).",
     "level_note": "Trusted: Lean kernel; harness. L-smoothness of the real potential energy surface is a hypothesis of the descent lemma (validated by the monotone-energy probe for small step factors).",
     "design_ref": "DESIGN.md section 5 C20",
 }
@@ -174,7 +174,12 @@ def _run_case(item):
 
 
 def run(ctx: Ctx):
+    from ..translate import gen as _gen
+    _gen.regenerate(ctx, ["SDGen"])
     leanproj.check_theorems(ctx, MODULE, THEOREMS)
+    from .registry import THEOREMS_SDTIE
+    # translator tie: order of evaluate / move / return, the update, the loop range, the stop test and the not-converged test of the source are the loop model's
+    leanproj.check_theorems(ctx, "PyseqmVerif.Properties.SDTie", THEOREMS_SDTIE)
     cases = gen_cases(ctx)
     results = mdh.pmap(_run_case, cases, timeout=1800)
     drv = leanproj.Driver()
